@@ -97,12 +97,27 @@ pub enum LcMut {
     PathOtherLeaf,
     /// columns replaced by symbolic ones and v kept (forge only the columns)
     ColsOnlySymbolic,
+    /// position j shows a consistent opening (committed column + its authentication path) of leaf q_j + 1
+    /// instead of leaf q_j; v and the well-formedness vector symbolic
+    LeafRotate,
+}
+
+pub trait LinStateParts {
+    /// (rows of the encoded matrix, column hashes)
+    fn parts(&self) -> (Vec<Vec<SF>>, Vec<crate::engine::ro::SymDigest>);
+}
+impl LinStateParts for <LigeroUniPC as PolynomialCommitment<SF, UP>>::CommitmentState {
+    fn parts(&self) -> (Vec<Vec<SF>>, Vec<crate::engine::ro::SymDigest>) {
+        let (_, ext, leaves) = self.verif_parts();
+        (ext, leaves.clone())
+    }
 }
 
 /// Ligero / Brakedown proofs built from an honest one through the accessor hook; claimed value p(z)+delta.
 pub fn lincode<S: Sch>(cfg: &Cfg, m: LcMut, negate: bool) -> Verdict
 where
     S::PC: PolynomialCommitment<SF, S::P, Proof = Vec<LinCodePCProof<SF, RoMT>>>,
+    <S::PC as PolynomialCommitment<SF, S::P>>::CommitmentState: LinStateParts,
 {
     let delta = sym_nonzero("delta");
     let mut w = match catch(|| build::<S>(cfg)) {
@@ -117,6 +132,7 @@ where
     };
     let pt = w.points[0].1.clone();
     let v = w.lps[0].evaluate(&pt);
+    let (ext_rows, leaves) = w.states[0].parts();
     {
         let (paths, pv, cols, wf) = proof[0].verif_parts_mut();
         match m {
@@ -159,6 +175,32 @@ where
                 }
                 for x in pv.iter_mut() {
                     *x = sym("fv");
+                }
+            }
+            LcMut::LeafRotate => {
+                // the harness's own Merkle tree over the committed column hashes (padded like the library's)
+                let n_ext = leaves.len();
+                let mut padded = leaves.clone();
+                padded.resize(n_ext.next_power_of_two(), Default::default());
+                let tree = match ark_crypto_primitives::merkle_tree::MerkleTree::<RoMT>::new(&(), &(), &padded) {
+                    Ok(t) => t,
+                    Err(_) => return Verdict::Discard("harness Merkle tree failed".into()),
+                };
+                for j in 0..paths.len() {
+                    let k = (paths[j].leaf_index + 1) % n_ext;
+                    paths[j] = match tree.generate_proof(k) {
+                        Ok(p) => p,
+                        Err(_) => return Verdict::Discard("harness Merkle path failed".into()),
+                    };
+                    cols[j] = ext_rows.iter().map(|row| row[k]).collect();
+                }
+                for x in pv.iter_mut() {
+                    *x = sym("fv");
+                }
+                if let Some(x) = wf.as_mut() {
+                    for y in x.iter_mut() {
+                        *y = sym("fw");
+                    }
                 }
             }
             LcMut::PathOtherLeaf => {
